@@ -51,7 +51,9 @@ ASSUMPTIONS = [
     "that: the path must exist and end at CPython's object, and unknown names / builtins must come back unchanged",
     "packages avoid every shape of the C05 loader findings (wildcards only from plain modules, plain __all__ lists), so "
     "that C04 does not depend on the pending C05 fixes",
-    "no attribute access through inheritance, no names bound inside function bodies, no PEP 563 modules",
+    "scope classes may inherit from each other, but no attribute access goes through inheritance; attribute segments "
+    "after a call / subscript root have no static binding (expected unchanged or relative to the root's path); no names "
+    "bound inside function bodies, no PEP 563 modules",
     "the scope model in vp/gen/c04_sites.py (Python's rule next to a model of Object.resolve) only labels sites for "
     "steering / known-finding attribution; every verdict compares Griffe with CPython",
 ]
